@@ -9,6 +9,7 @@ from .rules import c10 as R_c10
 from .rules import c06 as R_c06
 from .rules import structs as R_st
 from .rules import formats as R_fm
+from .rules import c20 as R_c20
 
 Q = ("quick", "thorough")
 T = ("thorough",)
@@ -224,5 +225,24 @@ PROPS = {
         technique="table = vendored reference comparison with an interpreter of field-list edit scripts; must-raise on CFG; scope resolution",
         trusted_base=["vstat.structmodel", "ref/elf_layout.json", "ref/records.json"],
         assumptions=[],
+    ),
+    "C20": dict(
+        title="Program identification is total and reports only format errors",
+        explanation=(
+            "Decides the explicit error discipline and termination shape of the identification chain: (R-RAISE) for each of the six "
+            "`try: p = Fmt(f)` of read_program, the interprocedural explicit may-raise set of Fmt's constructor (raise/assert sites of "
+            "~90 resolved callees, minus what is caught at each call site) is included in that try's handler tuple, read from the AST "
+            "on every run; (R-WRAP) StructCore.unpack and its overrides convert every field-decoding error into StructureError with a "
+            "catch-all handler; (R-PROGRESS) cursor-driven while loops whose step is read from the file reject a zero step; "
+            "(R-TABWALK) table walkers advance on every path; (R-PRIV/R-NAME) no never-stored private attribute or unresolved name "
+            "in the format modules. Does NOT decide implicit exceptions from corrupted values (IndexError, KeyError, TypeError), "
+            "wall-time, or cross-format exclusivity."
+        ),
+        rules=[(R_c20.r_raise, Q), (R_c20.r_wrap, Q), (R_c20.r_progress, Q), (R_fm.r_tabwalk, Q), (R_fm.r_name_formats, Q), (R_fm.r_priv_formats, Q)],
+        level_text="partial: interprocedural may-raise (explicit) effect analysis over the call graph of the six format constructors, contract check of the unpack overrides, loop-progress shape check; the tests only open well-formed samples",
+        level_note="Trusted: by-name callee resolution (constructors, self.method through the by-name MRO, module functions); implicit exceptions of unresolved callees are out of scope except through R-WRAP's catch-all requirement; one single-symbol exemption (MachO.__read_symtab NotImplementedError: magic already checked) is listed with its reason in RAISE_EXEMPT.",
+        technique="interprocedural may-raise effect analysis + handler-contract and loop-progress shape checks on the AST",
+        trusted_base=["vstat.callgraph", "exception hierarchy by class name (repo classes + builtins)"],
+        assumptions=["`assert` counts as AssertionError (python -O is not used)"],
     ),
 }
